@@ -376,6 +376,7 @@ func satEnumerate(s *Shard, prop string, fn func(c *Case)) {
 							rc := cfg
 							rc.Reverse = true
 							fn(&Case{Prop: prop, Kind: "satisfaction", Req: satRequest(rc)})
+							fn(&Case{Prop: prop, Kind: "satisfaction", Req: reverseChose(satRequest(cfg))}) // choseToMake against the catalogue order
 						}
 						if g.n == 3 && si%3 == 0 {
 							// the same with untidy ids (leading / trailing whitespace, upper case, a whitespace-only id)
@@ -418,6 +419,26 @@ func c13Run(s *Shard) {
 		s.Begin(c)
 		s.Report(c13Check(c))
 	})
+	// 13 and more alternatives, many of them accepted at the same level or never
+	for _, n := range manySizes {
+		for pat := 0; pat < 4; pat++ {
+			for _, cc := range []string{"", "n00", "zz"} {
+				for _, ths := range []L{{M{"c1": 1.5, "c2": 0.5}, M{"c1": 0.5, "c2": 1.5}}, {M{"c1": 2.5, "c2": 0.5}, M{"c1": 1.5, "c2": 1.5}, M{"c1": 0.5, "c2": 1.5}}, {M{"c1": 1.5, "c2": 1.5}}} {
+					if !s.Take() {
+						continue
+					}
+					mp := M{"function": "thresholds", "params": M{"thresholds": ths}, "randomSeed": 9}
+					if cc != "" {
+						mp["currentChoice"] = cc
+					}
+					c := &Case{Prop: "C13", Kind: "satisfaction", Req: manyAlternatives("satisfactionHeuristic", n, pat, mp)}
+					s.Evals++
+					s.Begin(c)
+					s.Report(c13Check(c))
+				}
+			}
+		}
+	}
 	satLong(s, "C13", func(c *Case) {
 		s.Evals++
 		s.Begin(c)
